@@ -1804,26 +1804,25 @@ impl FixtureDatabase {
                 continue;
             };
 
-            // Find the definition in this file
-            let Some(fixture_def) = definitions.iter().find(|d| d.file_path == file_path) else {
-                continue;
-            };
-
-            // Check each dependency
-            for dep_name in &fixture_def.dependencies {
-                // Resolve the dependency as pytest would from this fixture's file
-                // (a self-named dependency refers to the overridden parent).
-                let exclude = (dep_name == &fixture_def.name).then_some(fixture_def);
-                if let Some(dep_def) =
-                    self.find_closest_definition_excluding(file_path, dep_name, exclude)
-                {
-                    // Check if scope mismatch: fixture has broader scope than dependency
-                    // FixtureScope is ordered: Function < Class < Module < Package < Session
-                    if fixture_def.scope > dep_def.scope {
-                        mismatches.push(ScopeMismatch {
-                            fixture: fixture_def.clone(),
-                            dependency: dep_def,
-                        });
+            // Check every definition of the name in this file (it may be defined more than
+            // once: redefinitions, same-named fixtures of different test classes)
+            for fixture_def in definitions.iter().filter(|d| d.file_path == file_path) {
+                // Check each dependency
+                for dep_name in &fixture_def.dependencies {
+                    // Resolve the dependency as pytest would from this fixture's file
+                    // (a self-named dependency refers to the overridden parent).
+                    let exclude = (dep_name == &fixture_def.name).then_some(fixture_def);
+                    if let Some(dep_def) =
+                        self.find_closest_definition_excluding(file_path, dep_name, exclude)
+                    {
+                        // Check if scope mismatch: fixture has broader scope than dependency
+                        // FixtureScope is ordered: Function < Class < Module < Package < Session
+                        if fixture_def.scope > dep_def.scope {
+                            mismatches.push(ScopeMismatch {
+                                fixture: fixture_def.clone(),
+                                dependency: dep_def,
+                            });
+                        }
                     }
                 }
             }
